@@ -230,10 +230,11 @@ class Out:
 
     ROW_CAP = 2  # quick tier: Coq goals for the first rows of a batch only (the Python oracle covers every row)
 
+    HEAVY_CAP = 1
     HEAVY = ("gsde-logprob", "gsde-logprob-squashed", "gsde-entropy", "multicat-entropy")  # ~1-3 s each: quick tier checks one row
 
     def goal(self, label, expr, value, row=0):
-        if row >= Out.ROW_CAP or (Out.ROW_CAP < 99 and label in Out.HEAVY and row >= 1):
+        if row >= Out.ROW_CAP or (label in Out.HEAVY and row >= Out.HEAVY_CAP):
             return
         v = float(value)
         if not math.isfinite(v):
@@ -741,8 +742,9 @@ def run_cases(cases):
 def main():
     chk = Check("C14", groups=["dist"])
     chk.build_props()
-    n_cases = 56 if chk.tier == "quick" else 1000
-    Out.ROW_CAP = 2 if chk.tier == "quick" else 99
+    n_cases = 56 if chk.tier == "quick" else 420
+    Out.ROW_CAP = 2 if chk.tier == "quick" else 4
+    Out.HEAVY_CAP = 1 if chk.tier == "quick" else 2
     cases = [dict(c) for c in FIXED_CASES]
     corpus = os.path.join(common.VERIF, "corpus", "C14.jsonl")
     if os.path.exists(corpus):
